@@ -284,7 +284,8 @@ class Bits:
 
     def _repr(self, classname: str, length: int, pos: int):
         pos_string = f', pos={pos}' if pos else ''
-        if hasattr(self, '_filename') and self._filename:
+        # Only an object still backed by the file is described by its name: a mutable one has its own copy, which may have changed.
+        if hasattr(self, '_filename') and self._filename and self._bitstore.immutable:
             return f"{classname}(filename={self._filename!r}, length={length}{pos_string})"
         else:
             s = self.__str__()
